@@ -82,7 +82,7 @@ PROPS = {
         rule="every program twice: (1) as a query — FD programs: 1-4 variables, interval and sparse (unsorted, duplicated) domains over -4..=4 with mixed signs placed before/between/after "
              "the constraints, 1-5 constraints of every kind with operand aliasing and constants, == between variables and to numbers, 1 in 6 with a "
              "conde of constraint groups, hidden (non-query) FD variables; observable: answer sequence; oracle: brute force over the window — every "
-             "answer is an integer tuple that extends to a solution; non-trivial = >1 solution or >=1 answer; distinct = distinct case lines; (2) raw with a STATE DUMP (`rst` case lines): substitution of every program variable, domain store and constraint store (kind + walk*ed operands, sorted) of every state the body goal delivers, real State vs model State",
+             "answer is an integer tuple that extends to a solution; non-trivial = >1 solution or >=1 answer; distinct = distinct case lines; (2) programs with at most ONE propagator (whose state representation does not depend on the hash-iteration order) also raw with a STATE DUMP (`rst` case lines): substitution of every program variable, domain store and constraint store (kind + walk*ed operands, sorted) of every state the body goal delivers, real State vs model State",
         trusted=SEARCH_TRUST,
         assumptions=[],
         open=["the global exactness theorems (C16_state_sound, C17_no_solution_lost) cover every constraint kind except distinctfd / distinctfd2: for those the end-to-end statement is carried by the correspondence and the brute-force oracle", "that every domain-store key is unbound (so labelling empties the domain store), the normal form of stored disequalities, and the assembly of labelling + reification into the reported answer are carried by the correspondence"],
